@@ -36,7 +36,7 @@ RULE = ("messages over the JSON-native domain (boundary integers/floats, control
         "nesting >=3; distinct by hash of the message. json_default 'e' handles the application's types only and refuses everything else without "
         "delegating: what the encoder writes by itself (dates, times, datetimes, tuples) must not depend on it. part 'shutdown': fresh "
         "interpreters whose leftover objects log Path/set/complex/date/... values from __del__ while the interpreter is torn down, into "
-        "FileDestinations on stdout (text, binary, to_file): one faithful line per message offered. part 'env' and the 'blocked' batches: the same oracle in differently configured environments - optional third-party modules blocked the standard way (sys.modules[name] = None for numpy / pydantic / pandas / polars / orjson, before or after eliot is imported; in the forked case for the main generator, and in fresh interpreters) and fresh interpreters started with -bb, -b -W error, -W error, -O, where messages holding JSON-native and rich values (Path, set, complex, date, datetime, time, tuple, a delegating json_default's type) are offered, directly and through the logging API, to binary and text FileDestinations on in-memory and real files: every message has exactly one faithful line in every file, in order, and binary and text files hold the same bytes")
+        "FileDestinations on stdout (text, binary, to_file): one faithful line per message offered. part 'env' and the 'blocked' batches: the same oracle in differently configured environments - optional third-party modules blocked the standard way (sys.modules[name] = None for numpy / pydantic / pandas / polars / orjson, before or after eliot is imported; in the forked case for the main generator, and in fresh interpreters) and fresh interpreters started with -bb, -b -W error, -W error, -O, where messages holding JSON-native and rich values (Path, set, complex, date, datetime, time, tuple, a delegating json_default's type) are offered, directly and through the logging API, to binary and text FileDestinations on in-memory and real files: every message has exactly one faithful line in every file, in order, and binary and text files hold the same bytes" " Two in five of the long-lived destination pairs are built with the deprecated encoder=<JSONEncoder subclass> spelling (its default() is the same function): same lines. part 'rotating': a file object that forwards every attribute to its CURRENT stream (re-openable log file), re-opened between groups of messages: every message is one line in the stream current when it was logged and nowhere else.")
 ASSUMPTIONS = ["value domain bounded by orjson's own limits (64-bit integers, nesting < 254, valid Unicode)"]
 BATCH = 500
 
@@ -154,6 +154,8 @@ def plan(tier, seed):
     specs += [{"seed": seed, "lo": 10**7 + i * BATCH, "hi": 10**7 + (i + 1) * BATCH, "tier": tier, "interpreter": "no_orjson"} for i in range(k)]
     nr = 1500 if tier == "quick" else 15000
     specs += [{"part": "realtext", "seed": seed, "lo": i, "hi": min(nr, i + 100), "tier": tier} for i in range(0, nr, 100)]
+    nrot = 400 if tier == "quick" else 4000
+    specs += [{"part": "rotating", "seed": seed, "lo": i, "hi": min(nrot, i + 200)} for i in range(0, nrot, 200)]
     nf = 2000 if tier == "quick" else 20000
     specs += [{"part": "faultyfile", "seed": seed, "lo": i, "hi": min(nf, i + 100), "tier": tier} for i in range(0, nf, 100)]
     combos = [(d, hw, v) for d in shutdown.DESTS if d != "function" for hw in shutdown.HOWS for v in sorted(shutdown.EXPECTED_JSON)]
@@ -639,7 +641,22 @@ def one(seed, i, tier, res, pool):
     # one pair of destinations per json_default lives across all messages of the batch (state kept between messages would show)
     if which not in pool:
         fb0, ft0 = RecordingFile("b"), RecordingFile("t")
-        pool[which] = (fb0, ft0, FileDestination(file=fb0, json_default=default), FileDestination(file=ft0, json_default=default))
+        if rng.random() < 0.4:
+            # the deprecated spelling: encoder=<a JSONEncoder subclass> whose default() is the same function - the lines are the same
+            import json as _json
+            import warnings as _warnings
+
+            the_default = default
+
+            class _Encoder(_json.JSONEncoder):
+                def default(self, o):
+                    return the_default(o)
+            with _warnings.catch_warnings():
+                _warnings.simplefilter("ignore")
+                pool[which] = (fb0, ft0, FileDestination(file=fb0, encoder=_Encoder), FileDestination(file=ft0, encoder=_Encoder))
+            res["counters"]["destinations_built_with_the_deprecated_encoder_argument"] = res["counters"].get("destinations_built_with_the_deprecated_encoder_argument", 0) + 2
+        else:
+            pool[which] = (fb0, ft0, FileDestination(file=fb0, json_default=default), FileDestination(file=ft0, json_default=default))
     fb, ft, db, dt = pool[which]
     mark_b, mark_t = len(fb.ops), len(ft.ops)
     first_use = mark_b == 1 or mark_b == 0
@@ -941,8 +958,77 @@ def realtext_case(seed, i, res):
         res["violations"].append({"msg": problems[0], "mech": None, "detail": {"part": "realtext", "case": i, "encoding": enc, "how": how, "problems": problems[:5]}})
 
 
+class ForwardingFile(object):
+    """A log file object that forwards every attribute to its CURRENT stream (a re-openable log file: logrotate + reopen(); a stand-in
+    for whatever sys.stdout is at the moment). Looking `write` up again after a rotation gives the new stream's method."""
+
+    def __init__(self, text):
+        import io
+        self._text = text
+        self._streams = [io.StringIO() if text else io.BytesIO()]
+
+    def __getattr__(self, name):
+        return getattr(self._streams[-1], name)
+
+    def reopen(self):
+        import io
+        self._streams.append(io.StringIO() if self._text else io.BytesIO())
+
+
+def rotating_case(seed, i, res):
+    """One file destination on a forwarding file object; messages, a rotation, more messages, ...: every message is one line in the
+    stream that was current when it was logged, and nowhere else."""
+    import json as _json
+    rng = random.Random("%s:C10:rot:%d" % (seed, i))
+    text = rng.random() < 0.5
+    f = ForwardingFile(text)
+    how = rng.choice(["FileDestination", "to_file"])
+    dest = FileDestination(file=f)
+    epochs = []
+    problems = []
+    n = 0
+    try:
+        for e in range(rng.randint(2, 4)):
+            ids = []
+            for _ in range(rng.randint(0, 3)):
+                n += 1
+                m = {"task_uuid": "rot-%d" % i, "task_level": [n], "timestamp": 1.5, "message_type": "rot:m", "n": n, "s": gen.gen_text(rng, long_ok=False)}
+                dest(m)
+                ids.append(n)
+            epochs.append(ids)
+            f.reopen()
+    except BaseException as e_:
+        problems.append("offering message %d to the destination raised %r" % (n, e_))
+    for e, ids in enumerate(epochs):
+        raw = f._streams[e].getvalue()
+        raw = raw if text else raw.decode("utf-8", "replace")
+        lines = raw.split("\n")
+        got = []
+        for ln in lines[:-1]:
+            try:
+                got.append(_json.loads(ln).get("n"))
+            except ValueError:
+                problems.append("stream %d holds a line that is not JSON: %r" % (e, ln[:80]))
+        if lines[-1] != "":
+            problems.append("stream %d does not end with a line break" % e)
+        if got != ids:
+            problems.append("the stream that was current while messages %s were logged (stream %d of %d; the file object was re-opened after each group) holds the lines of messages %s" % (
+                ids, e, len(epochs), got))
+    res["evals"] += 1
+    c = res["counters"]
+    c["messages_logged_after_the_file_object_switched_streams"] = c.get("messages_logged_after_the_file_object_switched_streams", 0) + sum(len(x) for x in epochs[1:])
+    res["nontrivial"].append(h(["rot", text, [len(x) for x in epochs]]))
+    if problems:
+        res["violations"].append({"msg": "forwarding file object (%s): %s" % ("text" if text else "binary", problems[0]), "mech": None,
+                                  "detail": {"part": "rotating", "case": i, "text": text, "groups": epochs, "problems": problems[:5]}})
+
+
 def run_case(spec):
     res = {"evals": 0, "nontrivial": [], "counters": {}, "violations": [], "sample": None}
+    if spec.get("part") == "rotating":
+        for i in range(spec["lo"], spec["hi"]):
+            rotating_case(spec["seed"], i, res)
+        return res
     if spec.get("part") == "shutdown":
         return shutdown_case(spec)
     if spec.get("part") == "env":
@@ -979,6 +1065,10 @@ def finalize(agg, tier):
         return "too few write calls / rich values observed"
     if c.get("file_faults_raised", 0) < 500:
         return "too few file faults injected"
+    if c.get("messages_logged_after_the_file_object_switched_streams", 0) < 200:
+        return "too few messages were logged after a forwarding file object had switched streams"
+    if c.get("destinations_built_with_the_deprecated_encoder_argument", 0) < 50:
+        return "too few destinations were built with the deprecated encoder= argument"
     if c.get("messages_offered_during_interpreter_shutdown", 0) < 9:
         return "too few messages were offered during interpreter shutdown"
     if c.get("messages_logged_with_optional_modules_blocked", 0) < 100:
